@@ -1,7 +1,7 @@
 """C07 — field elements always stay canonical; == is value equality."""
 from core import report
 from core.sm9 import Repo
-from . import shared, field
+from . import shared, field, c13
 
 
 def run(ctx):
@@ -16,6 +16,7 @@ def run(ctx):
         shared.rule_rng(repo),
         field.rule_inv_none("C07", repo),
         field.rule_limb_predicates("C07", repo),
+        c13.rule_setbit(repo, "C07"),
     ]
     # the same rules on the release-profile MIR (cfg-dependent code would differ)
     repo_rel = Repo(ctx.rel)
